@@ -93,6 +93,36 @@ def biased_programs(rnd, n):
 def run(res, tier, seed, broken_model):
     rnd = random.Random(seed)
     K = 5 if tier == "quick" else 25
+    # 0. errors: the same rejected text parsed K times gives EQUAL error values (errors embed types; equality must not go
+    #    through anything that depends on the order in which a union's members or a struct's fields are visited)
+    UT, ST = "int|string|float", "struct{a: int, b: float, c: string}"
+    SV = "struct{a := 1, b := 0.5, c := \"x\"}"
+    rejected = []
+    for ty, val in ((UT, "1"), (ST, SV), ("[%s]|(int, %s)" % (UT, ST), "[1]")):
+        o = "(*(mut %s %s))" % (ty, val)
+        rejected += ["f := () -> %s {}" % ty, "x := mut %s true" % ty, "f := () -> bool { return %s }" % o, "g := (a: bool) -> int { return 1 }; g(%s)" % o,
+                     "%s + true" % o, "-%s" % o, "!%s" % o, "%s[0][0][0]" % o, "[1, 2][%s]" % o, "if %s { 1 }" % o, "match %s { x: bool => {1} }" % o, "%s.7" % o,
+                     "%s.zz" % o, "[1; %s]" % o, "(a, b, c, d, e) := %s" % o, "for x in %s { }" % o, "c := mut bool true; c = %s" % o, "c := mut bool true; c &= %s" % o,
+                     "%s()" % o, "*%s" % o, "%s ~" % o, "%s $+" % o, "while %s { }" % o, "f := (a: %s) -> int { return a }" % ty]
+    eout = harness_run(["errk\t\t%d\t%s" % (K + 3, esc_field(p)) for p in rejected])
+    res.streams["error-equality"] = dict(programs=len(rejected), parses_each=K + 3)
+    import re as _re
+    for p, o in zip(rejected, eout):
+        res.evaluations += 1
+        m = _re.match(r"\(errk accepted=(\d+) rejected=(\d+) unequal=(\d+) (\S+)\)", o)
+        if not m:
+            res.violation("parsing `%s` %d times: %s" % (p, K + 3, o[:200]), dict(program=p, impl=o), dict(oracle="crash", cls=o[:20]))
+            continue
+        acc, rej, uneq, name = int(m.group(1)), int(m.group(2)), int(m.group(3)), m.group(4)
+        res.count("error-equality:" + name)
+        if rej:
+            res.nontrivial.add("errk:" + p)
+        if acc and rej:
+            res.violation("the same text is accepted by some parses and rejected by others: `%s`: %s" % (p, o), dict(program=p, impl=o),
+                          dict(oracle="nondeterminism", cls="verdict"))
+        elif uneq:
+            res.violation("the same rejected text gives error values that are not equal to each other (%d of %d): `%s`: %s" % (uneq, rej, p, o),
+                          dict(program=p, impl=o), dict(oracle="nondeterminism", cls="error-equality"))
     # 1. types: K fresh parses
     g = T.TypeGen(rnd, max_depth=3 if tier == "quick" else 4)
     structs = [("multi", (("struct", (("a", ("int",)), ("b", ("int",)))), ("int",))),
